@@ -430,6 +430,26 @@ pub fn c02(out: &mut dyn Write, tier: &str, rng: &mut Rng, st: &mut Stats) {
             emit_canon(&le, "foreign-ite", &from_tt(tc, vars), &r);
         }
     }
+    // every other public operation on shared nodes of the environment: the result must be ordered and reduced
+    // (retain, model, the quantifiers, the counting operators, the iterator, ite, not)
+    let nops = if thorough { 40000 } else { 3000 };
+    for i in 0..nops {
+        let vars = &embs[i % embs.len()];
+        let f = crate::env::intern(&le.env, &from_tt(rng.below(256), vars));
+        let g = crate::env::intern(&le.env, &from_tt(rng.below(256), vars));
+        match i % 9 {
+            0 => { le.retain(&f, TruthTableEntry::True); }
+            1 => { le.retain(&f, TruthTableEntry::False); }
+            2 => { le.retain(&f, TruthTableEntry::Any); le.model(&f); }
+            3 => { let vs: Vec<usize> = (0..rng.below(3)).map(|_| vars[rng.below(3) as usize]).collect(); le.exists(&vs, &f); le.all(&vs, &g); }
+            4 => { let n = rng.range(-1, 4); le.cnt(*rng.pick(&["aln", "amn", "exn"]), &[Rc::clone(&f), Rc::clone(&g), Rc::clone(&f)], n); }
+            5 => { le.cntcmp(*rng.pick(&["leq", "lt", "geq", "gt", "eq"]), &[Rc::clone(&f)], &[Rc::clone(&g), Rc::clone(&f)]); }
+            6 => { le.fp_or(&f, &g); le.fp_and(&f, &g); }
+            7 => { let h = le.not(&f); le.ite(&h, &g, &f); }
+            _ => { let r = le.retain(&f, TruthTableEntry::True); le.retain(&r, TruthTableEntry::False); }
+        }
+        st.hit("ops.closure");
+    }
     // four-variable functions
     let vars4 = vec![0usize, 2, 3, 7];
     let n4: Vec<u64> = if thorough { (0..65536u64).collect() } else { (0..400).map(|_| rng.below(65536)).collect() };
